@@ -89,15 +89,15 @@ PLAN['C10'] = {
     'stages': lambda tier, seed: (
         [core('core_bfs', ['mod'], 8, 3),
          core('core_all', ['mod', 'undo', 'restore'], 6, 3, stack=1, und=1, rst=1)] if tier == 'quick' else
-        [core('core_bfs', ['mod'], 10, 5),
-         core('core_all', ['mod', 'undo', 'restore'], 7, 3, stack=2, und=2, rst=1)]),
+        [core('core_bfs', ['mod'], 9, 4, x='rows=0;1;2;3;4;5;7;31;50;62;63', timeout=14000),
+         core('core_all', ['mod', 'undo', 'restore'], 6, 3, stack=2, und=2, rst=1, timeout=14000)]),
     'rule': 'after the last step of every emitted behaviour of spec/Core.tla the harness looks up every leaf hash ever '
             'added (live and dead), every internal node hash and fresh hashes (GetLeafPosition, GetLeafHashPositions), '
             'reads every position 0..2^(rows+1)+4 (GetHash) and the tracked-leaf counters, on Pollard and full/partial '
             'MapPollard for every TotalRows of the tier, and compares with Nodes/PosOf of spec/Forest.tla. Non-trivial: '
             'the last step changes the state; distinct by (witness history, step).',
     'bounds': {'quick': 'n<=8 (blocks only); n<=6 with undo depth 1 and one serialization round trip',
-               'thorough': 'n<=10 (blocks only); n<=7 with undo depth 2 and one round trip; TotalRows 0..63'},
+               'thorough': 'n<=9, adds 0..4 (blocks only; TotalRows 0..5, 7, 31, 50, 62, 63); n<=6 with undo depth 2 and one round trip (TotalRows 0..63)'},
     'exhaustive': {'quick': True, 'thorough': True},
     'assumptions': ['free term algebra for hashes (the 12-byte NodeMap key prefixes cannot collide)',
                     'exhaustive only within the stated bounds'],
@@ -121,13 +121,13 @@ PLAN['C11'] = {
 PLAN['C17'] = {
     'stages': lambda tier, seed: (
         [core('core_all', ['mod', 'undo', 'prove', 'restore'], 5, 3, stack=1, und=1, rst=1)] if tier == 'quick' else
-        [core('core_all', ['mod', 'undo', 'prove', 'restore'], 6, 3, stack=2, und=2, rst=1)]),
+        [core('core_all', ['mod', 'undo', 'prove', 'restore'], 6, 3, stack=1, und=1, rst=1, timeout=14000)]),
     'rule': 'every library call made while replaying the behaviours of spec/Core.tla (Verify, Stump.Update, '
             'Pollard/MapPollard Verify, Prove, Modify, Undo, GetLeafHashPositions) receives its slices with spare '
             'capacity filled with sentinels; contents, length and spare capacity are compared after the call, and every '
             'result returned earlier in the behaviour (proofs, update data) is re-compared after every later call. '
             'Non-trivial: a state-changing or proving step; distinct by (witness history, step).',
-    'bounds': {'quick': 'n<=5, undo depth 1, one round trip', 'thorough': 'n<=6, undo depth 2, one round trip'},
+    'bounds': {'quick': 'n<=5, undo depth 1, one round trip', 'thorough': 'n<=6, undo depth 1, one round trip'},
     'exhaustive': {'quick': True, 'thorough': True},
     'assumptions': ['only mutations observable through the passed slices (contents, spare capacity) are detected'],
 }
